@@ -105,6 +105,19 @@ func (c *cmp) walk(w, g reflect.Value, path string, wz bool) {
 			c.walk(w.Index(i), g.Index(i), fmt.Sprintf("%s[%d]", path, i), true)
 		}
 	case reflect.Array:
+		if w.Type().Elem().Kind() == reflect.Uint8 { // byte arrays (up to 128 KiB): compare as bytes
+			wb, gb := make([]byte, w.Len()), make([]byte, g.Len())
+			reflect.Copy(reflect.ValueOf(wb), w)
+			reflect.Copy(reflect.ValueOf(gb), g)
+			if !bytes.Equal(wb, gb) {
+				i := 0
+				for i < len(wb) && wb[i] == gb[i] {
+					i++
+				}
+				c.diff(fmt.Sprintf("%s[%d]", path, i), "want %d got %d", wb[i], gb[i])
+			}
+			return
+		}
 		for i := 0; i < w.Len(); i++ {
 			c.walk(w.Index(i), g.Index(i), fmt.Sprintf("%s[%d]", path, i), wz)
 		}
